@@ -10,6 +10,7 @@ import (
 	"io/ioutil"
 	"net/http"
 	"net/url"
+	"regexp"
 
 	"github.com/emersion/go-ical"
 
@@ -88,6 +89,9 @@ func verifRequest(method, path string, hdr http.Header, xmlBody interface{}, xml
 		if err != nil {
 			b = []byte("<marshal-error")
 		}
+		if verifBogusExpand {
+			b = verifExpandStartAttr.ReplaceAll(b, []byte(`start="bogus"`))
+		}
 		r.Body = ioutil.NopCloser(bytes.NewReader(b))
 	}
 	return r
@@ -108,6 +112,51 @@ func symHeaderValue(hdr http.Header, name string, literals []string) (string, bo
 	hdr[name] = []string{v}
 	return v, true
 }
+
+// symCalendarData: a calendar-data request element of bounded shape with
+// the mutually exclusive combinations and, for expand, attribute text
+// outside the date grammar (the typed decode of the raw property fails then).
+func symCalendarData() (*internal.Prop, bool) {
+	malformed := false
+	cd := &calendarDataReq{}
+	if vrt.Choose("cd-hascomp", 2) == 1 {
+		c := comp{Name: "VCALENDAR"}
+		if vrt.Bool("cd-allprop") {
+			c.Allprop = &struct{}{}
+		}
+		if vrt.Choose("cd-hasprop", 2) == 1 {
+			c.Prop = append(c.Prop, prop{Name: "VERSION"})
+			if c.Allprop != nil {
+				malformed = true
+			}
+		}
+		if vrt.Bool("cd-allcomp") {
+			c.Allcomp = &struct{}{}
+		}
+		if vrt.Choose("cd-hassub", 2) == 1 {
+			c.Comp = append(c.Comp, comp{Name: "VEVENT"})
+			if c.Allcomp != nil {
+				malformed = true
+			}
+		}
+		cd.Comp = &c
+	}
+	switch vrt.Choose("cd-expand", 3) {
+	case 1:
+		cd.Expand = &expand{Start: dateWithUTCTime(vrt.Time("expand-start")), End: dateWithUTCTime(vrt.Time("expand-end"))}
+	case 2:
+		// start="..." carries text that is not a date
+		cd.Expand = &expand{Start: dateWithUTCTime(vrt.Time("expand-start")), End: dateWithUTCTime(vrt.Time("expand-end"))}
+		internal.VerifRawDecodeBad = cd
+		verifBogusExpand = true
+		malformed = true
+	}
+	p, _ := internal.EncodeProp(cd)
+	return p, malformed
+}
+
+var verifBogusExpand bool
+var verifExpandStartAttr = regexp.MustCompile(`start="[^"]*"`)
 
 // symReportBody: a REPORT body of bounded shape including the mutually
 // exclusive combinations; returns the struct and whether it is malformed.
@@ -161,30 +210,10 @@ func symReportBody() (interface{}, bool) {
 		case 1:
 			q.PropName = &struct{}{}
 		case 2:
-			cd := &calendarDataReq{}
-			if vrt.Choose("cd-hascomp", 2) == 1 {
-				c := comp{Name: "VCALENDAR"}
-				if vrt.Bool("cd-allprop") {
-					c.Allprop = &struct{}{}
-				}
-				if vrt.Choose("cd-hasprop", 2) == 1 {
-					c.Prop = append(c.Prop, prop{Name: "VERSION"})
-					if c.Allprop != nil {
-						malformed = true
-					}
-				}
-				if vrt.Bool("cd-allcomp") {
-					c.Allcomp = &struct{}{}
-				}
-				if vrt.Choose("cd-hassub", 2) == 1 {
-					c.Comp = append(c.Comp, comp{Name: "VEVENT"})
-					if c.Allcomp != nil {
-						malformed = true
-					}
-				}
-				cd.Comp = &c
+			p, bad := symCalendarData()
+			if bad {
+				malformed = true
 			}
-			p, _ := internal.EncodeProp(cd)
 			q.Prop = p
 		}
 		return q, malformed
@@ -194,8 +223,13 @@ func symReportBody() (interface{}, bool) {
 		for i := 0; i < n; i++ {
 			mg.Hrefs = append(mg.Hrefs, internal.Href{Path: "/dav/u/cal/c/" + string(rune('a'+i)) + ".ics"})
 		}
-		mg.AllProp = &struct{}{}
-		return mg, false
+		if vrt.Choose("multiget-propform", 2) == 0 {
+			mg.AllProp = &struct{}{}
+			return mg, false
+		}
+		p, bad := symCalendarData()
+		mg.Prop = p
+		return mg, bad
 	}
 	return nil, true // neither: wrongly rooted document
 }
@@ -205,6 +239,7 @@ func symReportBody() (interface{}, bool) {
 // update or delete call of the backend.
 func VerifH_C13_Handler() {
 	internal.VerifResetWire()
+	verifBogusExpand = false
 	internal.VerifCopyHook = verifCopy
 	be := &verifBackend{principal: "/dav/u/", homeSet: "/dav/u/cal/"}
 	be.calendars = []Calendar{{Path: "/dav/u/cal/c/", Name: "c"}}
